@@ -319,6 +319,10 @@ namespace occa {
   //   include_paths : Array
   hash_t kernelHeaderHash(const occa::json &props);
 
+  // Hash of the given properties taken together, as one { name: value } object
+  hash_t kernelPropsHash(const occa::json &props,
+                         const strVector &names);
+
   std::string assembleKernelHeader(const occa::json &props);
   //====================================
 }
